@@ -70,6 +70,19 @@ def run(ctx):
            ("mutate", 2, "hp"), ("clone", 2, 3, 2), ("learn", 3, 3), ("mutate", 3, "param"), ("learn", 3, 4)]
     for algo in zoo.ALGOS:
         jobs.append((algo, "vector", pre, 4, ctx.seed + 400, "lr"))
+    # the initial population, built from ONE hyperparameter configuration object: a learning-rate mutation of one member followed
+    # by mutations of the others that rebuild their optimizers (each must keep using its OWN learning rate)
+    shared = [("create", 1, 90), ("create", 2, 91), ("create", 3, 92), ("mutate", 1, "hp"), ("mutate", 2, "param"), ("learn", 2, 1),
+              ("mutate", 3, "arch"), ("learn", 3, 2), ("mutate", 2, "hp"), ("mutate", 1, "arch"), ("learn", 1, 3), ("mutate", 3, "param"), ("learn", 3, 4)]
+    for algo in zoo.ALGOS:
+        jobs.append((algo, "vector", shared, 4, ctx.seed + 600, "lr-shared"))
+    # Mutations(mutate_elite=False): the first member of the population draws no mutation; after learn steps (targets lag behind) it
+    # still leaves the mutation round with its targets re-synchronised, like every other member
+    noel = [("create", 1, 80), ("clone", 1, 2, 1), ("clone", 1, 3, 2), ("learn", 1, 1), ("learn", 2, 2), ("learn", 3, 3), ("learn", 1, 4),
+            ("mutpop", "param", "noelite"), ("learn", 1, 5), ("learn", 2, 5), ("mutpop", "arch", "noelite"), ("learn", 1, 6), ("learn", 3, 6),
+            ("mutpop", "hp", "noelite"), ("learn", 1, 7)]
+    for algo in zoo.ALGOS:
+        jobs.append((algo, "vector", noel, 4, ctx.seed + 500, False))
     traces = ec.run_scripts(jobs)
     for t, j in zip(traces, jobs):
         ctx.case((j[0], j[1], str(j[2])), nontrivial=any(o[0] in ("mutate", "mutpop") and o[-1] != "none" for o in j[2]))
